@@ -21,6 +21,7 @@ import (
 var weExprText = map[string]string{
 	"one": "1", "str": `"s"`, "list": "[1, 2]", "mlist": "[\n    1,\n    2,\n  ]", "obj": "{ a = 1 }", "trav": "var.x",
 	"tmpl": `"a${var.b}c"`, "here": "<<EOT\n  hello ${var.b}\nEOT", "call": "f(1, 2)", "cond": "x ? 1 : 2",
+	"here2": "<<EOT\n${var.b} is up\n%{ if true }yes%{ endif }\n  ${var.y}\nEOT", "here3": "<<-EOT\n    %{ for v in [1, 2] }${v}%{ endfor }\n    tail\n    EOT",
 	"v7": "7", "vs": `"hi"`, "vt": "var.y",
 }
 var weCommentText = map[string]string{"c1": "# c1 = { \"", "c2": "// c2", "c3": "/* c3 */"}
